@@ -511,7 +511,7 @@ func (st *ccState) onWrite(b []byte, to net.Addr) {
 	tx.sameBytes = string(b) == string(c.reqWire)
 	if ua, ok := to.(*net.UDPAddr); ok {
 		d := p.Dest()
-		tx.destOK = ua.IP.Equal(d.IP) && ua.Port == d.Port
+		tx.destOK = ua.IP.Equal(d.IP) && ua.Port == d.Port && ua.Zone == d.Zone
 	}
 	tx.invSeq = s.Seq()
 	tx.doneT = tx.t
